@@ -254,11 +254,24 @@ func main() {
 			lost[name] = "batch expression not found"
 			return
 		}
-		n, _ := strconv.Atoi(m[1])
+		n, err := strconv.Atoi(m[1])
+		if err != nil { // a named constant: resolve it in the package's files
+			n = 0
+			for _, rel := range []string{"writer.go", "writer_big.go", "types.go", "index.go"} {
+				if f := load(rel); f != nil {
+					if c := regexp.MustCompile(`\b` + m[1] + ` = (\d+)\b`).FindStringSubmatch(flat(f)); c != nil {
+						n, _ = strconv.Atoi(c[1])
+					}
+				}
+			}
+			if n == 0 {
+				lost[name] = "batch constant " + m[1] + " not resolved"
+			}
+		}
 		facts[name] = n
 	}
-	batch("batchMem", fn("writer.go", "IndexWriter", "WriteToBoltDatabase"), `if i%(\d+) == 0 \{ if err := tx\.Commit\(\)`)
-	batch("batchBig", fn("writer_big.go", "BigIndexWriter", "AddRow"), `if rowID > 0 && rowID%(\d+) == 0 \{`)
+	batch("batchMem", fn("writer.go", "IndexWriter", "WriteToBoltDatabase"), `if i%(\w+) == 0 \{ if err := tx\.Commit\(\)`)
+	batch("batchBig", fn("writer_big.go", "BigIndexWriter", "AddRow"), `if rowID > 0 && rowID%(\w+) == 0 \{`)
 	fact("headerInLastTxMem", fn("writer.go", "IndexWriter", "WriteToBoltDatabase"), func(b *ast.BlockStmt) bool {
 		loop := stmtIdx(b, `^for k, v := range idx\.values \{`)
 		s := stmtIdx(b, `bucket\.Put\(keySchema, `)
@@ -315,7 +328,10 @@ func main() {
 
 	// ---------------- openfile ----------------
 	fact("openFileFlags", fn("internal/openfile/openfile.go", "", "OpenFile"), func(b *ast.BlockStmt) bool {
-		return has(b, `^\{ if opts\.FailIfFileExists \{ return func\(pathname string, flags int, mode os\.FileMode\) \(\*os\.File, error\) \{ return os\.OpenFile\(pathname, flags\|os\.O_EXCL, mode\) \} \} if opts\.FailIfFileDoesntExist \{ return func\(pathname string, flags int, mode os\.FileMode\) \(\*os\.File, error\) \{ return os\.OpenFile\(pathname, flags&\^os\.O_CREATE, mode\) \} \} return os\.OpenFile \}$`)
+		s := flat(b)
+		ex := regexp.MustCompile(`opts\.FailIfFileExists:? \{? ?return func\(pathname string, flags int, mode os\.FileMode\) \(\*os\.File, error\) \{ return os\.OpenFile\(pathname, flags\|os\.O_EXCL, mode\) \}`).FindStringIndex(s)
+		me := regexp.MustCompile(`opts\.FailIfFileDoesntExist:? \{? ?return func\(pathname string, flags int, mode os\.FileMode\) \(\*os\.File, error\) \{ return os\.OpenFile\(pathname, flags&\^os\.O_CREATE, mode\) \}`).FindStringIndex(s)
+		return ex != nil && me != nil && ex[0] < me[0] && strings.Count(s, "os.OpenFile(") == 2 && strings.Contains(s, "return os.OpenFile")
 	})
 
 	// ---------------- parser ----------------
@@ -448,12 +464,14 @@ func main() {
 	fact("fileStmtChecksArgs", fn(dr, "fileStmt", "query"), chk)
 	fact("grpcStmtChecksArgs", fn(dr, "grpcStmt", "query"), chk)
 	fact("newRowsOnGroupBy", fn(dr, "", "newRows"), func(b *ast.BlockStmt) bool {
-		return has(b, `cols: append\(groupBy, "count"\)`) && has(b, `if len\(groupBy\) > 0 \{ for _, rr := range result\.Groups \{`) &&
-			has(b, `\} else \{ r\.rows = \[\]row\{\{count: result\.Count\}\} \}`)
+		return has(b, `cols: append\(groupBy, "count"\)`) && has(b, `if len\(groupBy\) (> 0|== 0) \{`) &&
+			has(b, `for _, rr := range result\.Groups \{`) && has(b, `r\.rows = \[\]row\{\{count: result\.Count\}\}`) &&
+			!has(b, `len\(result\.Groups\) (>|==|!=)`)
 	})
 	fact("replacePlaceholdersShape", fn("internal/queryparser/walk.go", "", "ReplacePlaceholders"), func(b *ast.BlockStmt) bool {
 		return has(b, `q := proto\.Clone\(query\)\.\(\*updogv1\.Query\)`) &&
-			has(b, `if v\.Eq\.Placeholder > 0 \{ v\.Eq\.Value = values\[v\.Eq\.Placeholder-1\] v\.Eq\.Placeholder = 0 \}`) && has(b, `return q \}$`)
+			has(b, `v\.Eq\.Placeholder > 0 \{ v\.Eq\.Value = values\[v\.Eq\.Placeholder-1\] v\.Eq\.Placeholder = 0 \}`) &&
+			has(b, `_ = Walk\(q, func`) && has(b, `return true \}\)`) && has(b, `return q \}$`)
 	})
 
 	// ---------------- server / convert / create ----------------
@@ -466,9 +484,10 @@ func main() {
 			!has(b, `sync\.Pool|\.Get\(\)|go func`)
 	})
 	fact("convertUsesGetters", fn("internal/convert/convert.go", "", "toExpr"), func(b *ast.BlockStmt) bool {
+		f := load("internal/convert/convert.go")
 		return has(b, `switch v := pbe\.GetValue\(\)\.\(type\)`) && has(b, `toExpr\(v\.Not\.GetExpr\(\)\)`) &&
-			has(b, `range v\.And\.GetExprs\(\)`) && has(b, `range v\.Or\.GetExprs\(\)`) && has(b, `default: return nil`) &&
-			!has(b, `v\.Not\.Expr\b|v\.And\.Exprs\b|v\.Or\.Exprs\b|pbe\.Value\b`)
+			has(b, `v\.And\.GetExprs\(\)`) && has(b, `v\.Or\.GetExprs\(\)`) && has(b, `default: return nil`) &&
+			!has(f, `\.Not\.Expr\b|\.And\.Exprs\b|\.Or\.Exprs\b|pbe\.Value\b|pbq\.Expr\b`)
 	})
 	fact("toQueryUsesGetters", fn("internal/convert/convert.go", "", "ToQuery"), func(b *ast.BlockStmt) bool {
 		return has(b, `Expr: toExpr\(pbq\.GetExpr\(\)\)`) && has(b, `GroupBy: pbq\.GetGroupBy\(\)`)
